@@ -421,7 +421,9 @@ class MoveReference:
 
     def format(self) -> str:
         moveref_to = self.moveref_to
-        if _wraps_declarator(moveref_to):
+        if isinstance(moveref_to, (Array, FunctionType)):
+            return moveref_to.format_decl("(&&)")
+        elif _wraps_declarator(moveref_to):
             return moveref_to.format_decl("&&")
         else:
             return f"{moveref_to.format()}&&"
@@ -429,7 +431,9 @@ class MoveReference:
     def format_decl(self, name: str):
         """Format as a named declaration"""
         moveref_to = self.moveref_to
-        if _wraps_declarator(moveref_to):
+        if isinstance(moveref_to, (Array, FunctionType)):
+            return moveref_to.format_decl(f"(&& {name})")
+        elif _wraps_declarator(moveref_to):
             return moveref_to.format_decl(f"&& {name}")
         else:
             return f"{moveref_to.format()}&& {name}"
